@@ -108,6 +108,8 @@ type SimNode struct {
 	peersAtLeave    []*peers.Peer
 	constructing    bool
 	isObserver      bool
+	quorumChecked   map[string]bool
+	roundChecked    map[int]bool
 	lagCounted      map[int]bool
 	explicitSuspend bool
 	ownScanned      int
